@@ -11,7 +11,7 @@ use serde_json::json;
 use std::collections::{HashMap, HashSet};
 use tls_parser::*;
 
-pub const RULE: &str = "complete sweep, seed-independent: (1) each named constant of the 18 registry newtypes is read through its Rust path and compared with the value typed from the IANA registry / defining RFC; (2) every integer of each newtype's domain (14 x 256 + 4 x 65536) is formatted with Display and Debug and judged against the table (exact identifier when named, numeric fallback containing the value otherwise); (3) From/Into, Deref, AsRef, to_be_bytes, LowerHex, from_u16 and cipher-id Display for every value of the 8 types that have them; SignatureScheme hash/sign/reserved for all 65536, and the same two wire bytes decoded by SignatureAndHashAlgorithm::{parse,parse_be,parse_le} and SignatureScheme::{parse,parse_be} (pair = split of the scheme); (4) NamedGroup::key_bits() for all 65536. distinct_nontrivial counts distinct (family, type, operation, text class / result class) tuples";
+pub const RULE: &str = "complete sweep, seed-independent: (1) each named constant of the 18 registry newtypes is read through its Rust path and compared with the value typed from the IANA registry / defining RFC; (2) every integer of each newtype's domain (14 x 256 + 4 x 65536) is formatted with Display and Debug and judged against the table (exact identifier when named, numeric fallback containing the value otherwise); (3) From/Into, Deref, AsRef, to_be_bytes, LowerHex, from_u16 and cipher-id Display for every value of the 8 types that have them, the Display / LowerHex impls also under 19 formatter specifications (width, fill, alignment, sign, zero padding, alternate form, precision: the digits must remain the raw value); SignatureScheme hash/sign/reserved for all 65536, and the same two wire bytes decoded by SignatureAndHashAlgorithm::{parse,parse_be,parse_le} and SignatureScheme::{parse,parse_be} (pair = split of the scheme); (4) NamedGroup::key_bits() for all 65536. distinct_nontrivial counts distinct (family, type, operation, text class / result class) tuples";
 pub const ASSUMPTIONS: &[&str] = &[
     "registry values are those typed into harness/src/iana.rs from the IANA registries and RFCs; rows marked certain=false (TlsVersion::DTls11: no such protocol version) are recorded, not judged",
     "code points that are not IANA registrations (GREASE 0xfafa, key_share 40, ticket_early_data_info 46, ESNI 0xffce, NPN 13172 / handshake type 67, TLS 1.3 draft versions 0x7f00|n) are judged against the defining draft",
@@ -503,6 +503,56 @@ pub fn run(ctx: &mut Ctx) {
         }
     });
     ctx.mark_exhaustive("integer conversions and SignatureScheme split for all values of the 8 types that define them");
+
+    // ------------------------------------------------ formatter state: Display / LowerHex of the integer-like types under
+    // width, fill, alignment, sign, zero-padding, alternate form and precision. Whatever padding the impl
+    // chooses to honour, the digits must still be the raw value (strip padding / sign / 0x, parse back).
+    ctx.floor("fmtflags.values", 65536);
+    ctx.sweep("format-flags", 256, |ctx, idx| {
+        fn digits_ok(s: &str, v: u32, hex: bool) -> bool {
+            let t = s.trim_matches(|c: char| c == ' ' || c == '*' || c == '_');
+            let t = t.strip_prefix('+').unwrap_or(t);
+            let t = if hex { t.strip_prefix("0x").unwrap_or(t) } else { t };
+            let t = t.trim_start_matches('0');
+            let t = if t.is_empty() { "0" } else { t };
+            (if hex { u32::from_str_radix(t, 16) } else { t.parse::<u32>() }).ok() == Some(v)
+        }
+        macro_rules! specs {
+            ($x:expr) => {
+                [("{}", format!("{}", $x)), ("{:>8}", format!("{:>8}", $x)), ("{:<7}", format!("{:<7}", $x)), ("{:^9}", format!("{:^9}", $x)), ("{:*>6}", format!("{:*>6}", $x)),
+                 ("{:08}", format!("{:08}", $x)), ("{:+}", format!("{:+}", $x)), ("{:.0}", format!("{:.0}", $x)), ("{:.1}", format!("{:.1}", $x)), ("{:.3}", format!("{:.3}", $x)),
+                 ("{:>4.4}", format!("{:>4.4}", $x)), ("{:2}", format!("{:2}", $x))]
+            };
+        }
+        macro_rules! hexspecs {
+            ($x:expr) => {
+                [("{:x}", format!("{:x}", $x)), ("{:#x}", format!("{:#x}", $x)), ("{:04x}", format!("{:04x}", $x)), ("{:#06x}", format!("{:#06x}", $x)), ("{:>8x}", format!("{:>8x}", $x)),
+                 ("{:.2x}", format!("{:.2x}", $x)), ("{:<6x}", format!("{:<6x}", $x))]
+            };
+        }
+        for lo in 0..=255u32 {
+            let v = (idx as u32) << 8 | lo;
+            let id = TlsCipherSuiteID(v as u16);
+            let got = ctx.guarded("format flags", &(v as u16).to_be_bytes(), || (specs!(id), hexspecs!(id), hexspecs!(TlsVersion(v as u16))));
+            if let Some((d, h, hv)) = got {
+                for (spec, text) in d.iter() {
+                    if !digits_ok(text, v, false) {
+                        ctx.violation(format!("c17:format-flags:TlsCipherSuiteID::Display:{}", spec), json!({"value": v, "format": spec, "text": text}));
+                    }
+                }
+                for (what, l) in [("TlsCipherSuiteID::LowerHex", &h), ("TlsVersion::LowerHex", &hv)] {
+                    for (spec, text) in l.iter() {
+                        if !digits_ok(text, v, true) {
+                            ctx.violation(format!("c17:format-flags:{}:{}", what, spec), json!({"value": v, "format": spec, "text": text}));
+                        }
+                    }
+                }
+            }
+            ctx.evals(26);
+            ctx.count("fmtflags.values");
+        }
+        ctx.shape(&("format-flags", idx / 16));
+    });
 
     // ------------------------------------------------ key_bits for every u16
     ctx.sweep("key_bits", (65536 / CHUNK) as u64, |ctx, idx| {
